@@ -459,11 +459,11 @@ def flush(ctx, res, pending):
         if rec.get("e2e_req") is None:
             _tally.add("no-form", form)
         else:
-            status, detail = e2e.verdict(replies[i], rec["og"], rec["nq"], rec["ret"])
+            status, detail = e2e.verdict(replies[i], rec["og"], rec["nq"], [rec["ret"]])
             i += 1
             _tally.add(status, form)
             if status == "mismatch":
-                res.disagree(case, "oracle definition list is in the class inXorFragment but the compiler model run on the "
+                res.disagree(case, "oracle definition list is in the class of an end-to-end theorem but the compiler model run on the "
                              "logged ancilla choices does not reproduce the oracle circuit of this instance", **detail)
         if "driver_error" in rg or rg.get("gates") != rec["gates"]:
             mg = rg.get("gates") or []
@@ -617,15 +617,17 @@ def run(ctx: Ctx) -> Result:
         "grover_distribution, C15_full); this correspondence additionally ties it to the real circuits: exact distribution of "
         "every explored real circuit == predict n M k"
     )
-    res.extra["end_to_end"] = dict(covered=_tally.covered, instances=_tally.total, by_form=_tally.by)
+    res.extra["end_to_end"] = dict(covered=_tally.covered, covered_fragment_only=_tally.covered_fragment,
+                                   instances=_tally.total, by_form=_tally.by)
     res.notes.append(
-        f"{_tally.covered} of {_tally.total} evaluated instances are covered end to end by the Lean theorem "
-        "C15_end_to_end_fragment (default iteration count; C15_end_to_end_distribution for the instances with an explicit "
-        "count): the oracle's definition list lies in the decidable class inXorFragment AND the compiler "
+        f"{_tally.covered} of {_tally.total} evaluated instances are covered end to end by a Lean theorem "
+        f"({_tally.covered_fragment} by C15_end_to_end_fragment - one tree-like definition, class inXorFragment -, the others by "
+        "C15_end_to_end_general - class inGeneralClean: several definitions, shared sub-expressions / cache hits, constants, "
+        "with the return qubit not an argument qubit and never a control, both evaluated on the model's output; explicit "
+        "iteration counts: the _distribution forms): the oracle's definition list lies in the class AND the compiler "
         "model, run on the ancilla choices logged from the real compilation, emits exactly the oracle circuit inside this "
-        f"Grover circuit (a difference would be a disagreement); per form covered/evaluated: {_tally.by_text()}; the other "
-        "instances (several definitions, repeated sub-expressions, constants, oraclize of a several-bit function) rest on "
-        "the per-instance clean-xor-oracle check of the real circuit, as before")
+        f"Grover circuit (a difference would be a disagreement); per form fragment->any/evaluated: {_tally.by_text()}; the "
+        "remaining instances rest on the per-instance clean-xor-oracle check of the real circuit, as before")
     res.notes.append(f"table entries explored: {len(table(nmax))} (n <= {nmax}); the (n, M) table itself is enumerated completely, "
                      "solution sets and forms per entry are a systematic slice plus a random part")
     res.assumptions.append("textbook action of H, X, Z, MCX, MCtrl(Z) on amplitudes (harness evaluator, cross-checked each run "
